@@ -13,7 +13,11 @@ package blockservice
 // spec/BlockService/TraceBlockService.tla.  The harness decides nothing.
 //
 // Projection (trusted, tiny): real CID <-> model CID [kind, n] through a table built when the CID is
-// created; block -> {c, ok} where ok = the bytes are the bytes the CID was computed from.
+// created (keyed by the FULL CID: aliases -- same multihash under another codec / CID version -- are
+// different model CIDs); block -> {c, ok} where ok = the bytes are the bytes the CID was computed from.
+//
+// Faults: a scenario's script may name the positions (k-th Put/PutMany of the call) at which the local
+// store fails; the wrapper then returns an error without writing and logs the operation with err=true.
 
 import (
 	"bytes"
@@ -24,6 +28,7 @@ import (
 	"fmt"
 	"math/rand"
 	"sync"
+	"sync/atomic"
 	"testing"
 	"time"
 
@@ -67,6 +72,9 @@ type c04Script struct {
 	Honest bool     `json:"honest"` // deliver exactly the requested blocks (those the exchange has)
 	Dl     []c04Blk `json:"dl"`     // otherwise: hand back these blocks, whatever was asked
 	End    string   `json:"end"`    // "close" | "err" (the request itself fails)
+	Pf     []int    `json:"pf"`     // positions (1 = first) of the call's Put/PutMany on the local store that fail
+	puts   int32    // Put/PutMany calls seen so far (atomic)
+	done   bool     // the caller saw the end of the call (guarded by c04Sys.mu): the exchange logs nothing more for it
 	// recorder only: honest exchange that reorders / drops / duplicates
 	shuffle func(bs []c04Blk) []c04Blk
 }
@@ -94,16 +102,34 @@ type c04Scenario struct {
 type c04Kind struct {
 	code uint64
 	len  int
+	form string // "raw1" CIDv1 raw | "pb1" CIDv1 dag-pb | "pb0" CIDv0
+	data string // kind whose bytes (hence multihash) this kind shares: aliases
 }
 
 var c04Kinds = map[string]c04Kind{
-	"sha256":   {mh.SHA2_256, 32},
-	"trunc16":  {mh.SHA2_256, 16},
-	"shake128": {mh.SHAKE_128, 32},
-	"sha512":   {mh.SHA2_512, 64},
-	"id4":      {mh.IDENTITY, 4},
-	"id129":    {mh.IDENTITY, 129},
-	"b2b152":   {mh.BLAKE2B_MIN + 18, 19},
+	"sha256":   {mh.SHA2_256, 32, "raw1", "sha256"},
+	"trunc16":  {mh.SHA2_256, 16, "raw1", "trunc16"},
+	"shake128": {mh.SHAKE_128, 32, "raw1", "shake128"},
+	"sha512":   {mh.SHA2_512, 64, "raw1", "sha512"},
+	"id4":      {mh.IDENTITY, 4, "raw1", "id4"},
+	"id129":    {mh.IDENTITY, 129, "raw1", "id129"},
+	"b2b152":   {mh.BLAKE2B_MIN + 18, 19, "raw1", "b2b152"},
+	"sha256pb": {mh.SHA2_256, 32, "pb1", "sha256"}, // aliases of sha256/n: same bytes, same multihash
+	"sha256v0": {mh.SHA2_256, 32, "pb0", "sha256"},
+}
+
+// c04Form reads the form of a real CID back (checked against the model's KindSpec by the Kind events).
+func c04Form(c cid.Cid) string {
+	p := c.Prefix()
+	switch {
+	case p.Version == 1 && p.Codec == cid.Raw:
+		return "raw1"
+	case p.Version == 1 && p.Codec == cid.DagProtobuf:
+		return "pb1"
+	case p.Version == 0 && p.Codec == cid.DagProtobuf:
+		return "pb0"
+	}
+	return fmt.Sprintf("v%d-%x", p.Version, p.Codec)
 }
 
 type c04Universe struct {
@@ -126,7 +152,7 @@ func c04Data(c c04Cid) []byte {
 		d[0], d[1], d[2] = 'i', byte(c.N), byte(c.N>>8)
 		return d
 	}
-	return []byte(fmt.Sprintf("verif block %s/%d ........................................", c.Kind, c.N))
+	return []byte(fmt.Sprintf("verif block %s/%d ........................................", k.data, c.N))
 }
 
 func (u *c04Universe) cid(c c04Cid) cid.Cid {
@@ -149,7 +175,17 @@ func (u *c04Universe) cid(c c04Cid) cid.Cid {
 			panic(err)
 		}
 	}
-	r := cid.NewCidV1(cid.Raw, m)
+	var r cid.Cid
+	switch k.form {
+	case "raw1":
+		r = cid.NewCidV1(cid.Raw, m)
+	case "pb1":
+		r = cid.NewCidV1(cid.DagProtobuf, m)
+	case "pb0":
+		r = cid.NewCidV0(m)
+	default:
+		panic("form " + k.form)
+	}
 	u.cids[c] = r
 	u.back[r.KeyString()] = c
 	return r
@@ -287,6 +323,24 @@ func (w *c04Store) GetSize(ctx context.Context, c cid.Cid) (int, error) {
 	return n, err
 }
 
+var c04ErrInjected = errors.New("verif: injected blockstore write failure")
+
+// putFails counts this Put/PutMany of call id and says whether the call's script makes it fail.
+func (w *c04Store) putFails(id int) bool {
+	v, ok := w.s.scripts.Load(id)
+	if !ok {
+		return false
+	}
+	sc := v.(*c04Script)
+	pos := int(atomic.AddInt32(&sc.puts, 1))
+	for _, p := range sc.Pf {
+		if p == pos {
+			return true
+		}
+	}
+	return false
+}
+
 func (w *c04Store) Put(ctx context.Context, b blocks.Block) error {
 	id := c04ID(ctx)
 	if _, isGet := w.s.getCalls.Load(id); isGet && w.s.putDelay > 0 {
@@ -294,17 +348,25 @@ func (w *c04Store) Put(ctx context.Context, b blocks.Block) error {
 		// has no effect on correct code (Put happens-before the hand-off).
 		time.Sleep(w.s.putDelay)
 	}
+	fail := w.putFails(id)
 	w.s.mu.Lock()
 	defer w.s.mu.Unlock()
-	err := w.s.inner.Put(ctx, b)
+	var err error = c04ErrInjected
+	if !fail {
+		err = w.s.inner.Put(ctx, b)
+	}
 	w.s.log(M{"ev": "BsPut", "id": id, "b": w.s.u.projBlock(b), "err": err != nil})
 	return err
 }
 
 func (w *c04Store) PutMany(ctx context.Context, bs []blocks.Block) error {
+	fail := w.putFails(c04ID(ctx))
 	w.s.mu.Lock()
 	defer w.s.mu.Unlock()
-	err := w.s.inner.PutMany(ctx, bs)
+	var err error = c04ErrInjected
+	if !fail {
+		err = w.s.inner.PutMany(ctx, bs)
+	}
 	pbs := make([]c04Blk, 0, len(bs))
 	for _, b := range bs {
 		pbs = append(pbs, w.s.u.projBlock(b))
@@ -391,18 +453,31 @@ func (e *c04Exch) getBlocks(ctx context.Context, ks []cid.Cid, via string) (<-ch
 	}
 	dl := e.deliveries(sc, ks)
 	ch := make(chan blocks.Block)
+	// A service that stops early (a failed caching Put) leaves this goroutine behind: what it logs must
+	// not trail the caller's Closed event, hence the done flag under the log's critical section.
+	logLive := func(m M) bool {
+		e.s.mu.Lock()
+		defer e.s.mu.Unlock()
+		if sc.done {
+			return false
+		}
+		e.s.log(m)
+		return true
+	}
 	go func() {
 		defer close(ch)
 		for _, b := range dl {
 			blk := e.s.u.block(b)
-			e.s.log(M{"ev": "ExDeliver", "id": id, "b": b})
+			if !logLive(M{"ev": "ExDeliver", "id": id, "b": b}) {
+				return
+			}
 			select {
 			case ch <- blk:
 			case <-ctx.Done():
 				return
 			}
 		}
-		e.s.log(M{"ev": "ExEnd", "id": id, "err": false})
+		logLive(M{"ev": "ExEnd", "id": id, "err": false})
 	}()
 	return ch, nil
 }
@@ -541,7 +616,10 @@ func (s *c04Sys) runOp(op c04Op) {
 			select {
 			case b, ok := <-ch:
 				if !ok {
+					s.mu.Lock()
+					sc.done = true
 					s.log(M{"ev": "Closed", "id": id})
+					s.mu.Unlock()
 					break loop
 				}
 				s.mu.Lock()
@@ -573,7 +651,7 @@ func c04EmitKinds(u *c04Universe) {
 		if !ok {
 			name = "?"
 		}
-		vEmit(M{"ev": "Kind", "kind": kind, "name": name, "len": p.MhLength})
+		vEmit(M{"ev": "Kind", "kind": kind, "name": name, "len": p.MhLength, "form": c04Form(u.cid(c04Cid{kind, 1}))})
 	}
 }
 
@@ -605,9 +683,11 @@ func init() {
 
 // ---------------------------------------------------------------- concurrent recorder (phase T)
 //
-// Concurrent workers issue GetBlocks/GetBlock/AddBlock(s) over ~30 accepted CIDs (plus rejected ones)
-// against an honest but unordered / lossy / duplicating / early-closing exchange; DeleteBlock only at
-// quiescent points (the model's environment assumption).
+// Concurrent workers issue GetBlocks/GetBlock/AddBlock(s) over ~30 accepted CIDs (plus rejected ones,
+// plus aliases -- CIDv1 dag-pb and CIDv0 -- of the first few) against an honest but unordered / lossy /
+// duplicating / early-closing exchange that now and then answers with an alias of the wanted CID (it
+// addresses blocks by multihash), over a local store whose Put/PutMany now and then fails; DeleteBlock
+// only at quiescent points (the model's environment assumption).
 
 func c04Record(t *testing.T) {
 	rng := vRand()
@@ -622,6 +702,9 @@ func c04Record(t *testing.T) {
 	var valid, other []c04Cid
 	for n := 1; n <= 30; n++ {
 		valid = append(valid, c04Cid{"sha256", n})
+	}
+	for n := 1; n <= c04AliasN; n++ {
+		valid = append(valid, c04Cid{"sha256pb", n}, c04Cid{"sha256v0", n})
 	}
 	for n := 1; n <= 3; n++ {
 		valid = append(valid, c04Cid{"id4", n})
@@ -642,8 +725,12 @@ func c04Record(t *testing.T) {
 		s := c04NewSys(u, ex, wt, al)
 		vEmit(M{"ev": "Reset", "ex": ex, "wt": wt, "al": al, "scn": run})
 		var pre []c04Blk
-		for _, c := range valid {
-			if rng.Intn(3) == 0 {
+		preMh := map[c04Cid]bool{} // one preload per multihash (the model's Preload is for absent blocks)
+		for _, i := range rng.Perm(len(valid)) {
+			c := valid[i]
+			m := c04Cid{c04Kinds[c.Kind].data, c.N}
+			if rng.Intn(3) == 0 && !preMh[m] {
+				preMh[m] = true
 				pre = append(pre, c04Blk{c, true})
 			}
 		}
@@ -671,7 +758,23 @@ func c04Record(t *testing.T) {
 	vEmit(M{"ev": "Done", "n": total})
 }
 
+const c04AliasN = 5 // sha256/1..5 have aliases in the recorder's universe
+
+var c04AliasKinds = []string{"sha256", "sha256pb", "sha256v0"}
+
 func c04RandomOp(r *rand.Rand, pick func(*rand.Rand) c04Cid) c04Op {
+	op := c04RandomOp0(r, pick)
+	// store fault: the k-th Put/PutMany of this call fails
+	switch get := op.Op == "GetBlock" || op.Op == "GetBlocks"; {
+	case get && r.Intn(4) == 0:
+		op.Script.Pf = []int{1 + r.Intn(2)}
+	case !get && r.Intn(8) == 0:
+		op.Script.Pf = []int{1}
+	}
+	return op
+}
+
+func c04RandomOp0(r *rand.Rand, pick func(*rand.Rand) c04Cid) c04Op {
 	sess := []string{"none", "ses", "ctx"}[r.Intn(3)]
 	// honest exchange that may reorder, drop, duplicate and close early
 	seed := r.Int63()
@@ -680,6 +783,9 @@ func c04RandomOp(r *rand.Rand, pick func(*rand.Rand) c04Cid) c04Op {
 		q.Shuffle(len(bs), func(i, j int) { bs[i], bs[j] = bs[j], bs[i] })
 		var res []c04Blk
 		for _, b := range bs {
+			if k := c04Kinds[b.C.Kind]; k.data == "sha256" && b.C.N <= c04AliasN && q.Intn(8) == 0 {
+				b.C.Kind = c04AliasKinds[q.Intn(len(c04AliasKinds))] // the same bytes under (possibly) another CID
+			}
 			switch x := q.Intn(10); {
 			case x == 0: // dropped
 			case x == 1:
@@ -711,7 +817,7 @@ func c04RandomOp(r *rand.Rand, pick func(*rand.Rand) c04Cid) c04Op {
 	case x < 7:
 		return c04Op{Op: "GetBlock", Sess: sess, Ks: []c04Cid{pick(r)}, Script: sc}
 	case x < 8:
-		return c04Op{Op: "AddBlock", Bs: []c04Blk{{pick(r), true}}}
+		return c04Op{Op: "AddBlock", Bs: []c04Blk{{pick(r), true}}, Script: c04Script{Honest: true, End: "close"}}
 	default:
 		n := 1 + r.Intn(4)
 		seen := map[c04Cid]bool{}
@@ -723,7 +829,7 @@ func c04RandomOp(r *rand.Rand, pick func(*rand.Rand) c04Cid) c04Op {
 				bs = append(bs, c04Blk{c, true})
 			}
 		}
-		return c04Op{Op: "AddBlocks", Bs: bs}
+		return c04Op{Op: "AddBlocks", Bs: bs, Script: c04Script{Honest: true, End: "close"}}
 	}
 }
 
